@@ -59,9 +59,11 @@ def in_band(i, j, r, c, w):
 def norm_psi(psi):
     if psi is None:
         return (0, 0, 0, 0)
+    if hasattr(psi, "item") and not hasattr(psi, "__len__"):
+        psi = psi.item()
     if isinstance(psi, int):
         return (psi, psi, psi, psi)
-    return tuple(psi)
+    return tuple(int(x) for x in psi)
 
 
 def is_start(i, j, psi):
